@@ -51,7 +51,17 @@ def freq (g : Gen) (nbits draws : Nat) : (Nat × Nat × Nat) × Gen := Id.run do
     (255 degrees of freedom: mean 255, standard deviation 22.6). -/
 def freqOk (draws maxdev x k : Nat) : Bool := maxdev * maxdev ≤ 64 * draws && x ≤ 600 * k
 
-def step (st : Slots) : String → List Tok → Option (Slots × List Tok)
+/-- ops whose first argument must be an initialised slot -/
+private def liveOps : List String :=
+  ["@rseed", "@rseed_ui", "@rclear", "@urandomb", "@urandomb_ui", "@mpn_urandomb", "@urandomm", "@urandomm_alias",
+   "@urandomm_ui", "@mpn_urandomm", "@rrandomb", "@mpn_randomb", "@mpn_rrandom", "@mpf_urandomb", "@freq", "@same"]
+
+private def empty? (st : Slots) (t : Tok) : Bool :=
+  match t with
+  | .num i => okSlot i && (slot? st i).isNone
+  | _ => false
+
+def step' (st : Slots) : String → List Tok → Option (Slots × List Tok)
   | "@rinit_mt", [.num i] => if okSlot i then some (put st i (some (.mt mtDefault)), one) else none
   | "@rinit_default", [.num i] => if okSlot i then some (put st i (some (.mt mtDefault)), one) else none
   | "@rinit_lc", [.num i, .num a, .num c, .num m] =>
@@ -145,6 +155,16 @@ def pred : PredHandler
       | [.err e] => some (some e)
       | _ => some (some "output")
   | _, _, _ => none
+
+/-- a valid but uninitialised slot answers `!noinit` (same as the harness), otherwise `step'`. -/
+def step (st : Slots) (op : String) (toks : List Tok) : Option (Slots × List Tok) :=
+  let noinit : Bool :=
+    match toks with
+    | a :: b :: _ =>
+      (liveOps.contains op && empty? st a) || (op == "@rcopy" && empty? st b) || (op == "@same" && !empty? st a && empty? st b)
+    | [a] => liveOps.contains op && empty? st a
+    | [] => false
+  if noinit then some (st, [Tok.err "noinit"]) else step' st op toks
 
 def stateful : IO StatefulHandler := mkStateful init step
 
